@@ -30,6 +30,17 @@ Points ==
     \cup {[fam |-> "valref", where |-> w, early |-> e] : w \in {"upper", "lower", "single", "size", "component", "reftype_default",
                                                                  \* the other end of the range is MIN / MAX (half-open), in a value and in a size range
                                                                  "upper_min", "lower_max", "size_max", "component_max"}, e \in BOOLEAN}
+\* argument forms of a parameterized type (X.683 9): what may stand for an actual parameter, and how dummies may be used
+\*   actual_valref      the value argument is a reference to a value assignment
+\*   dummy_shadow       a value assignment elsewhere in the module is spelled like the value dummy
+\*   dummy_constrained  the template constrains its type dummy,  a T (0..5)
+\*   forward            the template hands its dummies on to a second template
+\*   null_actual        the type argument is NULL (which is also a value notation)
+\*   chain              (valref family) a reference to a value that is itself given by reference
+ArgForms == {"actual_valref", "dummy_shadow", "dummy_constrained", "forward", "null_actual"}
+ArgPoints == {[fam |-> "paramarg", form |-> f, early |-> e] : f \in ArgForms, e \in BOOLEAN}
+                \cup {[fam |-> "valref", where |-> w, early |-> e] : w \in {"chain", "chain_size"}, e \in BOOLEAN}
+EmitArgs == x = 0 => \A p \in ArgPoints : PrintT(<<"CASE", ToJson(p)>>)
 NamedNumPoints == {[fam |-> "namednum", where |-> w, early |-> e] : w \in {"range", "single", "component"}, e \in BOOLEAN}
 Legal(p) == p.fam = "select" => p.sel <= p.nalts
 Init == x = 0
